@@ -751,8 +751,10 @@ impl Blockchain {
     }
 
     async fn add_block_transactions_back(&mut self, mempool: &mut Mempool, block: &mut Block) {
-        let wallet = mempool.wallet_lock.read().await;
-        let public_key = wallet.public_key;
+        let public_key = {
+            let wallet = mempool.wallet_lock.read().await;
+            wallet.public_key
+        };
         if block.creator == public_key {
             let transactions = &mut block.transactions;
             let prev_count = transactions.len();
@@ -773,8 +775,10 @@ impl Blockchain {
                 transactions.len(),
                 (prev_count - transactions.len())
             );
+            // go through the pool's own admission: a returned transaction must not join a pooled transaction that
+            // spends the same output, and its inputs must be reserved like those of any other pooled transaction
             for tx in transactions {
-                mempool.transactions.insert(tx.signature, tx);
+                mempool.add_transaction(tx).await;
             }
             mempool.new_tx_added = true;
         }
